@@ -283,7 +283,11 @@ func c19Build(seed int64, a *c19Arena) *c19Corpus {
 	}
 	for wi, n := range []int{1, 2, 4, 8} {
 		for i := 0; i < 30; i++ {
-			b := make([]byte, r.Intn(40))
+			ln := r.Intn(40)
+			if i >= 26 {
+				ln = (8192/n)*[]int{1, 2, 5, 1}[i-26] + r.Intn(64) // packed result of 1 KiB and more
+			}
+			b := make([]byte, ln)
 			for k := range b {
 				b[k] = byte(r.Intn(1 << uint(n)))
 			}
